@@ -130,9 +130,14 @@ func checkC17(c *Ctx) {
 		sc := cases.ScanCase{ID: "ties", G: g, Roots: roots, Names: names, Style: "full", Dates: []int64{1000000000, 1000000000, 1000000000, 1000000000, 1000000000, 1000000000, 1000000000}}
 		base, _ := os.MkdirTemp(c.Scratch, "ties-")
 		repoDir := filepath.Join(base, "r")
-		if _, err := materialiseCase(repoDir, &sc); err != nil {
+		tiesRepo, err := materialiseCase(repoDir, &sc)
+		if err != nil {
 			Infra("ties repository: %v", err)
 		}
+		// reference groups from gitconfig: six siblings, two children of an implicit parent, a child of a
+		// predefined group -- the rows of the table must come out in one order every time
+		gitconfig := tiesGitconfig()
+		appendFile(filepath.Join(tiesRepo.GitDir, "config"), gitconfig)
 		nrep := 12
 		if !quick(c) {
 			nrep = 60
@@ -157,7 +162,7 @@ func checkC17(c *Ctx) {
 				}
 				if why != "" {
 					c.AddViolation(Violation{Predicate: why, Spec: "CliRun / determinism (ties)", Kind: "ties",
-						Input: map[string]interface{}{"case": sc, "args": args}, Observed: map[string]interface{}{"stderr": tail(string(res.Stderr), 8)}})
+						Input: map[string]interface{}{"case": sc, "args": args, "gitconfig": gitconfig}, Observed: map[string]interface{}{"stderr": tail(string(res.Stderr), 8)}})
 					break
 				}
 			}
@@ -237,6 +242,25 @@ func checkC17(c *Ctx) {
 	s.judgeAndValidate()
 	c.Sample(map[string]interface{}{"kind": "repeated runs", "repositories": nrepos, "modes": len(addrModes), "gomaxprocs": []int{1, 2, 4, 16}, "repetitions": reps})
 	c.Note("%d runs of the -race build (digest before/after, stdout compared, race reports monitored)", total)
+}
+
+func tiesGitconfig() string {
+	var b strings.Builder
+	for i := 0; i < 6; i++ {
+		fmt.Fprintf(&b, "[refgroup \"g%d\"]\n\tname = Group %d\n\tinclude = refs/heads/b%d\n\tinclude = refs/tags/t%d\n", i, i, i, (i+1)%6)
+	}
+	b.WriteString("[refgroup \"p.x\"]\n\tinclude = refs/heads/b0\n[refgroup \"p.y\"]\n\tincluderegexp = refs/tags/t[0-3]\n")
+	b.WriteString("[refgroup \"tags.odd\"]\n\tincluderegexp = refs/tags/t[135]\n[refgroup \"tags.even\"]\n\tincluderegexp = refs/tags/t[024]\n")
+	return b.String()
+}
+
+func appendFile(path, text string) {
+	f, err := os.OpenFile(path, os.O_APPEND|os.O_WRONLY, 0o644)
+	if err != nil {
+		Infra("%v", err)
+	}
+	defer f.Close()
+	f.WriteString(text)
 }
 
 func replayDet(c *Ctx, raw json.RawMessage) bool {
